@@ -152,9 +152,9 @@ func c13List(tier string) []c13Case {
 type nopStats struct{}
 
 func (nopStats) TagRPC(ctx context.Context, _ *stats.RPCTagInfo) context.Context   { return ctx }
-func (nopStats) HandleRPC(context.Context, stats.RPCStats)                        {}
+func (nopStats) HandleRPC(context.Context, stats.RPCStats)                         {}
 func (nopStats) TagConn(ctx context.Context, _ *stats.ConnTagInfo) context.Context { return ctx }
-func (nopStats) HandleConn(context.Context, stats.ConnStats)                      {}
+func (nopStats) HandleConn(context.Context, stats.ConnStats)                       {}
 
 type c13Call struct {
 	unary    bool
@@ -296,8 +296,13 @@ func c13One(tier string, c c13Case, syms []int, res *core.Result, desc func() st
 			bctx.Cancel()
 		}
 	}
-	if (len(syms)+syms[0])%2 == 0 {
+	switch (len(syms) + syms[0]) % 3 {
+	case 0:
 		l.A.SetReadErr(io.EOF) // how net.Conn based transports report the peer closing
+	case 1:
+		// how a transport bound to a session context of its own (a Demux logical connection after
+		// Stop) reports its end
+		l.A.SetReadErr(fmt.Errorf("session ended: %w", context.Canceled))
 	}
 	// then the connection is closed: the client's read fails after exactly these envelopes
 	l.A.FailReadAfter(len(syms))
@@ -433,13 +438,15 @@ func c13Run(tier string, seed int64, idx int) *core.Result {
 
 func init() {
 	core.Register(&core.Prop{
-		ID:    "C13",
-		Level: "exploration",
-		Rule:  "alphabet = 21 response shapes x addressed to {call A, call B, an unknown id} (63 symbols); a scripted server sends EVERY sequence up to length 3 (quick) / 4 (thorough) for the pairing unary+stream without stats handler and up to 2 / 3 for stream+stream and for both pairings with a stats handler, to a real client with the two calls outstanding (every accessor - Invoke, Header, receive loop, Trailer - in its own goroutine), then the connection is closed after exactly those envelopes (read error: a custom error or io.EOF); a fifth configuration pairs the unary call with a stream whose caller never receives, cancels after the first envelope and never looks at it again (lengths up to 2 / 3, plus directed sequences of 2..7 bodies for it followed by the unary reply); plus seeded random sequences of length 4..33. Oracle: process alive, every operation returned at the final state, every message returned is carried in order by an envelope addressed to that call, unary success has data, stream io.EOF only after a successful end addressed to it.",
-		Plan:  func(tier string, seed int64) int { return len(c13List(tier)) },
-		Run:   c13Run,
+		ID:         "C13",
+		Level:      "exploration",
+		Rule:       "alphabet = 21 response shapes x addressed to {call A, call B, an unknown id} (63 symbols); a scripted server sends EVERY sequence up to length 3 (quick) / 4 (thorough) for the pairing unary+stream without stats handler and up to 2 / 3 for stream+stream and for both pairings with a stats handler, to a real client with the two calls outstanding (every accessor - Invoke, Header, receive loop, Trailer - in its own goroutine), then the connection is closed after exactly those envelopes (read error: a custom error, io.EOF or an error wrapping context.Canceled); a fifth configuration pairs the unary call with a stream whose caller never receives, cancels after the first envelope and never looks at it again (lengths up to 2 / 3, plus directed sequences of 2..7 bodies for it followed by the unary reply); plus seeded random sequences of length 4..33. Oracle: process alive, every operation returned at the final state, every message returned is carried in order by an envelope addressed to that call, unary success has data, stream io.EOF only after a successful end addressed to it.",
+		Plan:       func(tier string, seed int64) int { return len(c13List(tier)) },
+		Run:        c13Run,
 		Exhaustive: func(string) bool { return true },
-		RequiredStats: func(string) []string { return []string{"sequences_enum", "sequences_random", "sequences_with_stats_handler"} },
-		Assumptions:   []string{"exhaustive = every sequence over the 63-symbol alphabet up to the stated lengths per configuration"},
+		RequiredStats: func(string) []string {
+			return []string{"sequences_enum", "sequences_random", "sequences_with_stats_handler"}
+		},
+		Assumptions: []string{"exhaustive = every sequence over the 63-symbol alphabet up to the stated lengths per configuration"},
 	})
 }
